@@ -16,9 +16,10 @@ func init() {
 // One trip-update entity. PART selects which group of optional fields varies
 // (the groups do not interact in the parser; each is explored exhaustively
 // while the others are present with symbolic values):
-//   PART 0: the trip descriptor (every field optional, every start time/date shape)
-//   PART 1: S stop time updates with every presence pattern
-//   PART 2: the vehicle descriptor (absent / id / label / licence plate / all)
+//
+//	PART 0: the trip descriptor (every field optional, every start time/date shape)
+//	PART 1: S stop time updates with every presence pattern
+//	PART 2: the vehicle descriptor (absent / id / label / licence plate / all)
 func Harness_C02_tripupdate() {
 	S := vr.Param("S", 1)
 	part := vr.Param("PART", 0)
